@@ -35,7 +35,12 @@ type Client struct {
 	issuedTick int64
 	commitAtIssue uint64 // highest commit index seen on any replica when the request was issued
 	committedSeen int
-	session *client.Session
+	session   *client.Session // registered session (nil: not registered / no-op mode)
+	sessOp    string          // "", "register", "unregister", "dead-propose": what the outstanding request is
+	regSess   *client.Session // session being registered / unregistered
+	deadSess  *client.Session // a session that was unregistered (proposals with it must be Rejected)
+	retry     *histOp         // a session proposal whose outcome is unknown: retried with the same series id
+	retryCmd  []byte
 	final     bool
 	finalLeft int
 	readVal   KVVal
@@ -74,6 +79,13 @@ func (c *Client) beginFinal() {
 	// still outstanding from the fault phase is abandoned (its outcome stays
 	// unknown; its channel keeps being watched for C12)
 	if c.phase == 1 {
+		if c.sessOp == "register" || c.sessOp == "unregister" {
+			c.regSess = nil
+		}
+		if c.sessOp == "dead-propose" {
+			c.sim.orc.deadWids = append(c.sim.orc.deadWids, c.op.wid)
+		}
+		c.sessOp = ""
 		if c.op != nil && c.op.write {
 			c.op.failed = "abandoned"
 			c.sim.orc.recordOp(c.op)
@@ -84,6 +96,14 @@ func (c *Client) beginFinal() {
 		c.rs.Release()
 		c.op, c.phase, c.rs = nil, 0, nil
 	}
+	if c.retry != nil {
+		// stop retrying: the outcome of that proposal stays unknown
+		c.retry.failed = "abandoned"
+		c.sim.orc.recordOp(c.retry)
+		c.retry = nil
+		c.session = nil
+	}
+	c.deadSess = nil
 	c.final = true
 	c.finalLeft = 2
 	c.nextAt = 0
@@ -125,31 +145,84 @@ func (c *Client) act() {
 	if h == nil {
 		return
 	}
-	key := byte(s.src.Intn(s.cfg.Keys))
-	isRead := s.src.Intn(100) < s.cfg.ReadMix
-	if c.final {
-		// the last operations of every client: a write then a read
-		isRead = c.finalLeft == 1
-	}
-	op := &histOp{client: c.id, host: h.id, key: key, write: !isRead}
+	useSessions := s.cfg.Sessions && s.cfg.SMKind != KindOnDisk
 	nh := h.nh
 	var rs *dragonboat.RequestState
 	var err error
-	if isRead {
-		s.ctx.Ev("client.readindex", uint64(c.id), uint64(h.id), uint64(key))
-		op.call = s.stamp()
-		s.runTask("client.readindex", h, "", func() {
-			rs, err = nh.ReadIndex(shardID, c.timeout())
-		})
-	} else {
+	var op *histOp
+	c.sessOp = ""
+	switch {
+	case useSessions && c.retry != nil:
+		// the API prescribes: after a timeout retry with the same series id
+		op = c.retry
+		cmd := c.retryCmd
+		sess := c.session
+		s.ctx.Ev("client.retry", uint64(c.id), uint64(h.id), uint64(op.key), op.wid)
+		s.ctx.Count("probe.session_retry", 1)
+		s.runTask("client.propose", h, "", func() { rs, err = nh.Propose(sess, cmd, c.timeout()) })
+	case useSessions && c.session == nil:
+		cs := client.NewSession(shardID, s.auxSource())
+		cs.PrepareForRegister()
+		c.regSess = cs
+		c.sessOp = "register"
+		op = &histOp{client: c.id, host: h.id}
+		s.ctx.Ev("client.register", uint64(c.id), uint64(h.id))
+		s.runTask("client.register", h, "", func() { rs, err = nh.ProposeSession(cs, c.timeout()) })
+	case useSessions && !c.final && c.deadSess != nil && s.src.Chance(1, 4):
+		// a proposal of an unregistered session must be Rejected
+		ds := c.deadSess
+		c.deadSess = nil
+		ds.PrepareForPropose()
 		s.nextWID++
-		op.wid = s.nextWID
-		cmd := MakeCmd(key, op.wid, s.cfg.Pad)
-		s.ctx.Ev("client.propose", uint64(c.id), uint64(h.id), uint64(key), op.wid)
+		op = &histOp{client: c.id, host: h.id, key: byte(s.src.Intn(s.cfg.Keys)), write: true, wid: s.nextWID}
+		cmd := MakeCmd(op.key, op.wid, s.cfg.Pad)
+		c.sessOp = "dead-propose"
+		s.ctx.Ev("client.deadpropose", uint64(c.id), uint64(h.id), op.wid)
 		op.call = s.stamp()
-		s.runTask("client.propose", h, "", func() {
-			rs, err = nh.Propose(nh.GetNoOPSession(shardID), cmd, c.timeout())
-		})
+		s.runTask("client.propose", h, "", func() { rs, err = nh.Propose(ds, cmd, c.timeout()) })
+	case useSessions && !c.final && s.src.Chance(1, 12):
+		cs := c.session
+		c.session = nil
+		cs.PrepareForUnregister()
+		c.regSess = cs
+		c.sessOp = "unregister"
+		op = &histOp{client: c.id, host: h.id}
+		s.ctx.Ev("client.unregister", uint64(c.id), uint64(h.id))
+		s.runTask("client.unregister", h, "", func() { rs, err = nh.ProposeSession(cs, c.timeout()) })
+	default:
+		key := byte(s.src.Intn(s.cfg.Keys))
+		isRead := s.src.Intn(100) < s.cfg.ReadMix
+		if c.final {
+			// the last operations of every client: a write then a read
+			isRead = c.finalLeft == 1
+		}
+		op = &histOp{client: c.id, host: h.id, key: key, write: !isRead}
+		if isRead {
+			s.ctx.Ev("client.readindex", uint64(c.id), uint64(h.id), uint64(key))
+			op.call = s.stamp()
+			s.runTask("client.readindex", h, "", func() {
+				rs, err = nh.ReadIndex(shardID, c.timeout())
+			})
+		} else {
+			s.nextWID++
+			op.wid = s.nextWID
+			cmd := MakeCmd(key, op.wid, s.cfg.Pad)
+			sess := c.session
+			if !useSessions {
+				sess = nil
+			}
+			s.ctx.Ev("client.propose", uint64(c.id), uint64(h.id), uint64(key), op.wid)
+			op.call = s.stamp()
+			if sess != nil {
+				c.retryCmd = cmd
+			}
+			s.runTask("client.propose", h, "", func() {
+				if sess == nil {
+					sess = nh.GetNoOPSession(shardID)
+				}
+				rs, err = nh.Propose(sess, cmd, c.timeout())
+			})
+		}
 	}
 	s.ctx.Count("ev.client_op", 1)
 	c.issued++
@@ -158,9 +231,10 @@ func (c *Client) act() {
 		// not accepted: never takes effect
 		s.ctx.Count("probe.request_refused", 1)
 		s.ctx.Tracef("client %d refused: %v", c.id, err)
-		if c.final && err != nil {
-			// keep trying in the final phase
+		if c.sessOp == "register" || c.sessOp == "unregister" {
+			c.regSess = nil
 		}
+		c.sessOp = ""
 		return
 	}
 	c.op = op
@@ -228,6 +302,11 @@ func (c *Client) poll() {
 		}
 		s.orc.onResult(c, r)
 		op := c.op
+		if c.sessOp != "" {
+			c.sessionOpResult(r)
+			return
+		}
+		useSessions := s.cfg.Sessions && s.cfg.SMKind != KindOnDisk && op.write
 		switch {
 		case r.Completed():
 			if op.write {
@@ -236,6 +315,10 @@ func (c *Client) poll() {
 				res := r.GetResult()
 				s.orc.onWriteCompleted(c, op, res)
 				s.orc.recordOp(op)
+				if useSessions && c.session != nil {
+					c.session.ProposalCompleted()
+					c.retry = nil
+				}
 				c.hold("write")
 				if c.final {
 					c.finalLeft--
@@ -247,25 +330,27 @@ func (c *Client) poll() {
 			}
 		default:
 			// Timeout, Terminated, Dropped, Aborted, Rejected
-			kind := "timeout"
-			switch {
-			case r.Terminated():
-				kind = "terminated"
-			case r.Dropped():
-				kind = "dropped"
-			case r.Rejected():
-				kind = "rejected"
-			case r.Aborted():
-				kind = "aborted"
-			}
+			kind := resultKind(r)
 			s.ctx.Count("probe.result_"+kind, 1)
 			op.failed = kind
 			c.nextAt = s.ticks + 4
 			if op.write {
-				if r.Dropped() || r.Rejected() {
+				switch {
+				case useSessions && r.Rejected():
+					// the session is unknown to the shard (evicted): the proposal was
+					// not applied; a new session is needed
 					op.dropped = true
+					s.orc.recordOp(op)
+					s.ctx.Count("probe.session_rejected", 1)
+					c.session, c.retry = nil, nil
+				case useSessions && c.session != nil:
+					c.retry = op // outcome unknown: retry with the same series id
+				default:
+					if r.Dropped() || r.Rejected() {
+						op.dropped = true
+					}
+					s.orc.recordOp(op)
 				}
-				s.orc.recordOp(op)
 			}
 			c.hold(kind)
 			c.op, c.phase, c.rs = nil, 0, nil
@@ -314,10 +399,20 @@ func (c *Client) hostDied(h *Host) {
 		return
 	}
 	op := c.op
-	if op != nil && op.write {
+	switch {
+	case c.sessOp == "register" || c.sessOp == "unregister":
+		c.regSess = nil
+	case c.sessOp == "dead-propose":
+		op.failed = "host-crashed"
+		c.sim.orc.recordOp(op)
+		c.sim.orc.deadWids = append(c.sim.orc.deadWids, op.wid)
+	case op != nil && op.write && c.sim.cfg.Sessions && c.sim.cfg.SMKind != KindOnDisk && c.session != nil:
+		c.retry = op
+	case op != nil && op.write:
 		op.failed = "host-crashed"
 		c.sim.orc.recordOp(op)
 	}
+	c.sessOp = ""
 	c.op, c.phase, c.rs = nil, 0, nil
 	c.readDone = false
 }
@@ -325,3 +420,60 @@ func (c *Client) hostDied(h *Host) {
 // shardStopped is called when the shard of a host is stopped gracefully: the
 // outstanding requests will be Terminated through their channels.
 func (c *Client) shardStopped(h *Host) {}
+
+func resultKind(r dragonboat.RequestResult) string {
+	switch {
+	case r.Completed():
+		return "completed"
+	case r.Terminated():
+		return "terminated"
+	case r.Dropped():
+		return "dropped"
+	case r.Rejected():
+		return "rejected"
+	case r.Aborted():
+		return "aborted"
+	}
+	return "timeout"
+}
+
+// sessionOpResult handles the result of register / unregister / a proposal
+// made with an unregistered session.
+func (c *Client) sessionOpResult(r dragonboat.RequestResult) {
+	s := c.sim
+	kind := resultKind(r)
+	s.ctx.Count("probe.session_"+c.sessOp+"_"+kind, 1)
+	switch c.sessOp {
+	case "register":
+		if r.Completed() {
+			if r.GetResult().Value != c.regSess.ClientID {
+				s.ctx.Violate("C05", "register-result", "session registration completed with value %d, want the client id %d", r.GetResult().Value, c.regSess.ClientID)
+			}
+			c.regSess.PrepareForPropose()
+			c.session = c.regSess
+		}
+		c.regSess = nil
+	case "unregister":
+		if r.Completed() {
+			c.deadSess = c.regSess
+		}
+		c.regSess = nil
+	case "dead-propose":
+		op := c.op
+		op.failed = kind
+		if r.Completed() {
+			s.ctx.Violate("C05", "unregistered-session-applied", "proposal %d made with an unregistered session completed", op.wid)
+		}
+		if r.Rejected() || r.Dropped() {
+			op.dropped = true
+		}
+		s.orc.recordOp(op)
+		s.orc.deadWids = append(s.orc.deadWids, op.wid)
+	}
+	if !r.Completed() {
+		c.nextAt = s.ticks + 4
+	}
+	c.hold(c.sessOp)
+	c.sessOp = ""
+	c.op, c.phase, c.rs = nil, 0, nil
+}
